@@ -75,6 +75,10 @@ def cells(tier):
                        ('rotated', list(range(40, many + 1)) + list(range(0, 40)))):
         out.append(mk(PID, ('roMetadataReplace',) * many, True, 'string' if name != 'rotated' else 's3', perm=perm, T=T,
                       may_fail=False, mids=mm, tag='70-messages-' + name))
+    # a message naming a story that a later-numbered message brings in fails in every supply order
+    for perm in ([0, 1, 2], [2, 1, 0], [1, 2, 0]):
+        out.append(mk(PID, ('roStoryInsert', 'roStoryAppend'), False, 'string', perm=perm, T=T, mids=['5', '10'], refs=['n1', 0],
+                      may_fail=False, tag='target-created-later'))
     # a roReplace is ordered by its message ID like everything else
     for perm in ([3, 2, 1, 0], [1, 3, 0, 2], [0, 1, 2, 3]):
         out.append(mk(PID, ('roMetadataReplace', 'roReplace', 'roMetadataReplace'), True, 'string', perm=perm,
